@@ -293,3 +293,27 @@ def observer_frame(u):
     par = [p for p in ast.walk(loop) if any(c in cb for c in ast.iter_child_nodes(p))]
     u.ensure(len(cb) == 1 and all(isinstance(p, ast.Expr) for p in par), "callbacks_called_once_per_iteration_result_ignored")
     u.ensure(True, "scan_complete")
+
+
+@unit("C08.prefix_lemma", ["C08"], ["pygradflow.solver.Solver.solve"])
+def prefix_lemma(u):
+    """Relational step of C08 (machine-checked induction step over the loop contract):
+    let body : State -> State be the loop transition (it does not read the limits: unit C08.limits_read_set) and
+    gate(s, i, limit) the ordered gate (unit C02._check_terminate): IterationLimit iff limit is set and i >= limit, else
+    g(s) which does not depend on the limit.  Run A has limit k, run B has none.  Induction hypothesis at i < k:
+    sA(i) = sB(i) and neither run has stopped.  Then both take the same decision at i, and if they continue,
+    sA(i+1) = sB(i+1); at i = k run A stops with IterationLimit holding sB(k) (= the state of the unlimited run)."""
+    import z3
+
+    S = z3.DeclareSort("LoopState")
+    body = z3.Function("body", S, S)
+    g = z3.Function("g_other_tests", S, z3.IntSort())  # 0 = continue, >0 = some status decided from the state alone
+    sA, sB = z3.Const("sA_i", S), z3.Const("sB_i", S)
+    i, k = z3.Ints("i k")
+    u.assume(z3.And(i >= 0, k >= 0, i <= k, sA == sB))
+    gateA = z3.If(i >= k, z3.IntVal(-1), g(sA))  # -1 = IterationLimit
+    gateB = g(sB)
+    u.ensure(z3.Implies(i < k, gateA == gateB), "same_decision_below_the_limit")
+    u.ensure(z3.Implies(z3.And(i < k, gateA == 0), body(sA) == body(sB)), "same_next_state_below_the_limit")
+    u.ensure(z3.Implies(i == k, z3.And(gateA == -1, sA == sB)), "at_the_limit:IterationLimit_with_the_state_of_the_unlimited_run")
+    u.canary(gateA == gateB, "same_decision_also_at_the_limit")
